@@ -12,6 +12,7 @@ import (
 	"fmt"
 	"net/http"
 	"net/http/httptest"
+	neturl "net/url"
 	"strconv"
 
 	v2 "github.com/formancehq/ledger/internal/api/v2"
@@ -60,7 +61,11 @@ func genBulk(r *rng, n int, tier string, emit func(J)) {
 		if r.p(30) { // a request-level Idempotency-Key header must not leak into the elements
 			hdr = fmt.Sprintf("hk%d", r.n(2))
 		}
-		emit(J{"cont": r.p(50), "elems": elems, "broken": r.p(3), "hdr_ik": hdr})
+		q := J{"cont": r.p(50), "elems": elems, "broken": r.p(3), "hdr_ik": hdr}
+		if r.p(35) { // the flag as the client spelled it; "cont" is then ignored (the model reads the spelling)
+			q["cont_raw"] = r.pick(contSpellings)
+		}
+		emit(q)
 	}
 }
 
@@ -97,6 +102,9 @@ func bulkData(action, kind string, idx int, target string) string {
 	// unknown action: any payload
 	return `{"idx":"` + is + `"}`
 }
+
+// spellings of ?continueOnFailure= a client may send (sharedapi.QueryParamBool: lower-cased "1" or "true" switch it on)
+var contSpellings = []string{"true", "TRUE", "True", "1", "false", "FALSE", "False", "0", "no", "NO", "yes", "off", "on", "", "<bare>", "t", "f", "01", " true", "true ", "null", "continueOnFailure"}
 
 func callIdx(c writeCall) int {
 	switch c.Kind {
@@ -164,7 +172,13 @@ func execBulk(in J) J {
 	}
 	router := v2.NewRouter(&fakeBackend{l: fl}, nil, metrics.NewNoOpRegistry(), auth.NewNoAuth())
 	url := "/ledger0/_bulk"
-	if cont {
+	if raw, ok := in["cont_raw"].(string); ok {
+		if raw == "<bare>" {
+			url += "?continueOnFailure"
+		} else {
+			url += "?continueOnFailure=" + neturl.QueryEscape(raw)
+		}
+	} else if cont {
 		url += "?continueOnFailure=true"
 	}
 	req := httptest.NewRequest(http.MethodPost, url, bytes.NewReader(body.Bytes()))
